@@ -590,6 +590,38 @@ def run_unix(run, cfg, G):
                        "non-trivial = any transfer / listener / cancellation case; distinct = distinct case lines")
 
 
+# ------------------------------------------------------------------------------------ alias (C11)
+
+def alias_nontrivial(inp, impl):
+    ks = []
+    if "diff" in impl:
+        ks.append("held-item-changed")
+    if "same" in impl:
+        ks.append("held-item-intact")
+    g = inp.split(" G ")[1].split(" O ")[0].split()
+    if len(g) > 1:
+        ks.append("replies-in-separate-reads")
+    if any(int(x) > 1 for x in g):
+        ks.append("several-replies-in-one-read")
+    return ks
+
+
+def alias_known_key(line):
+    if line.startswith("alias "):
+        return "held-item-overwritten"
+    return None
+
+
+def run_alias(run, cfg, G):
+    diff_run(run, G, ["alias"], "alias", alias_nontrivial, "alias", known_key=alias_known_key)
+    def search():
+        diff_run(run, G, ["alias"], "alias", alias_nontrivial, "alias-search", tier="thorough", seed_offset=1, record=False, known_key=alias_known_key)
+    finish_corr(run, G, [search])
+    run.cov["rule"] = ("chains of 2..6 calls whose replies carry a borrowed &str (Reply<P<'a>>) of varying length, delivered in every grouping pattern drawn at random (all in one read ... one read each); every item yielded by the chain's reply stream is HELD while "
+                       "the later ones are obtained, then compared with the copy taken when it was yielded; total size below the first growth step (no reallocation is provoked: reading through a dangling reference would be UB); "
+                       "the model predicts exactly which held items are overwritten; non-trivial = at least one held item intact or changed; distinct = distinct case lines")
+
+
 RX_ASSUME = [
     "which bytes are a JSON document of the requested shape is serde_json/serde's business: the model takes `decode this frame` as an opaque per-frame function (theorems hold for every such function); the harness instantiates it with the verdict of a fresh connection receiving that frame alone and cross-checks call receivers against serde_json::from_slice",
     "the ReadHalf contract: a read future that is dropped while pending has consumed nothing",
@@ -646,6 +678,16 @@ PROPS = {
         "run": run_srv_scenarios(["srv-fair"]), "trusted_base": TB_COMMON,
         "assumptions": SRV_ASSUME + [
             "the no-double-service and bounded-bypass theorems are stated over sequences of consecutive scans of an unchanged set of n futures (Sel.winners); that the server's get_next_call is such a scan, and that the next start is winner+1, is proved for one iteration (C18_scan_is_select) and checked over whole runs by the correspondence of the global service order; the composition over full server runs is not a single theorem",
+        ],
+    },
+    "C11": {
+        "property_modules": ["Zlink.Properties.C11"], "lean_modules": ["Zlink.Properties.C11"],
+        "theorems": ["C11.C11_counterexample", "C11.C11_full_statement_false", "C11.C11_partial_all_buffered"],
+        "run": run_alias, "trusted_base": TB_COMMON,
+        "assumptions": [
+            "PARTIAL by necessity: the full statement is false of the code (proved: C11_full_statement_false); what is proved is the counterexample and the sub-case that holds (no transport read between yield and use => nothing is touched)",
+            "real undefined behaviour (a read through a reference that dangles after Vec growth) cannot be exhibited by a model; the model tracks reallocation as a generation counter, the run observes overwritten bytes only in the no-growth regime",
+            "that receive_reply(&'r mut self) alone is safe is the borrow checker's guarantee (the unchecked lifetime extension in reply_stream.rs is what removes it); not a theorem here",
         ],
     },
     "C13": {
